@@ -192,6 +192,12 @@ class P:
         t = self.peek()
         if t[0] == "int":
             self.i += 1
+            if self.eat("..="):
+                hi = self.peek()
+                if hi[0] != "int":
+                    raise ParseError("range pattern bound")
+                self.i += 1
+                return ("prange", t[1], hi[1])
             return ("plit", t[1])
         if t == ("id", "_"):
             self.i += 1
@@ -235,6 +241,28 @@ class P:
             if self.at("use"):
                 while not self.eat(";"):
                     self.i += 1
+                continue
+            if self.at("const") and self.peek(1)[0] == "id" and self.peek(2) == ("p", ":"):
+                # a constant local to the body: a `let`
+                self.i += 1
+                name = self.ident()
+                self.expect(":")
+                self.ty({"="})
+                self.expect("=")
+                e = self.expr()
+                self.expect(";")
+                stmts.append(("let", ("pid", name), e)); continue
+            if (self.at("fn") or (self.at("unsafe") and self.peek(1) in (("id", "fn"), ("kw", "fn")))) and True:
+                # a function nested in the body: skipped here, translated on its own (located by `find_fn`)
+                while not self.at("{"):
+                    self.i += 1
+                d = 0
+                while True:
+                    if self.at("{"): d += 1
+                    if self.at("}"): d -= 1
+                    self.i += 1
+                    if d == 0:
+                        break
                 continue
             if (self.at("struct") or self.at("impl")) and self.peek()[0] in ("id", "kw"):
                 # an item nested in a function body (a local guard type and its `Drop` impl): skipped here; its functions are
